@@ -115,6 +115,15 @@ def mk_cond(c, a, b):
         b = b[3]
     if a == b:
         return a
+    # common structure is factored out of the gate: cond(c, f(x), f(y)) = f(cond(c, x, y)); same for tuples and attributes
+    if a[0] == 'call' and b[0] == 'call' and a[1] == b[1] and len(a) == len(b) and [k for k, _ in a[3]] == [k for k, _ in b[3]] \
+            and isinstance(a[1], str) and not a[1].startswith('new ') and (a[2] == b[2] or a[2][0] != 'const'):
+        args = tuple((k, mk_cond(c, x, y)) for (k, x), (_, y) in zip(a[3], b[3]))
+        return ('call', a[1], mk_cond(c, a[2], b[2]), args) + tuple(a[4:])
+    if a[0] == 'tuple' and b[0] == 'tuple' and len(a[1]) == len(b[1]):
+        return ('tuple', tuple(mk_cond(c, x, y) for x, y in zip(a[1], b[1])))
+    if a[0] == 'attr' and b[0] == 'attr' and a[2] == b[2]:
+        return ('attr', mk_cond(c, a[1], b[1]), a[2])
     return ('cond', c, a, b)
 
 
@@ -174,6 +183,7 @@ class SVal:
         self._sites = {}
         self._seq = 0
         self.loops = {}       # id -> (node, iter term)
+        self.loop_updates = {}  # id -> {name: term after one iteration}
         self._wsets = None
         env = {}
         a = fi.node.args
@@ -328,7 +338,17 @@ class SVal:
                 if k:
                     env.pop(k, None)
             return env, pc
-        if isinstance(st, (ast.FunctionDef, ast.AsyncFunctionDef, ast.ClassDef)):
+        if isinstance(st, ast.ClassDef):
+            cenv = dict(env)
+            members = []
+            for b in st.body:
+                if isinstance(b, ast.Assign) and len(b.targets) == 1 and isinstance(b.targets[0], ast.Name):
+                    v = self.ev(b.value, cenv, pc)
+                    cenv[b.targets[0].id] = v
+                    members.append((b.targets[0].id, v))
+            env[st.name] = ('localclass', tuple(self.ev(b, env, pc) for b in st.bases), tuple(members))
+            return env, pc
+        if isinstance(st, (ast.FunctionDef, ast.AsyncFunctionDef)):
             env[st.name] = ('localdef', st.name)
             return env, pc
         if isinstance(st, (ast.Pass, ast.Global, ast.Nonlocal, ast.Import, ast.ImportFrom)):
@@ -504,6 +524,8 @@ class SVal:
         e = e[0] if e is not None else None
         out = dict(env)
         last = e if e is not None else body_env
+        # how each loop-carried name is updated by one iteration (in terms of its value at the start of the iteration)
+        self.loop_updates[lid] = {k: last.get(k, UNDEF) for k in stored if not isinstance(k, tuple) and k in env}
         for k in stored:
             if isinstance(k, tuple):
                 continue
@@ -856,6 +878,9 @@ class SVal:
                                 break
                     except AnalysisError:
                         params = None
+        if not isinstance(f, (ast.Name, ast.Attribute)):
+            # (c_ubyte * size)(...), handlers[k](...): the callee is a computed value
+            callee, lib = ('dyn', self.ev(f, env, pc, record)), None
         if callee is None:
             ft = self.ev(f, env, pc, record=False) if not isinstance(f, ast.Attribute) else ('attr', recv, name)
             callee = ('dyn', ft)
